@@ -224,9 +224,9 @@ impl ExprGen {
     }
 }
 
-const NUMS: [f64; 22] = [
+const NUMS: [f64; 26] = [
     0.0, 1.0, 2.0, 3.0, 4.0, 10.0, 0.5, 1.5, 2.5, 100.0, 0.1, 1e21, 1e-7, 4503599627370497.0, 12345.0, 1.0, 2.0,
-    3.0, 0.25, 7.0, 123456789012.0, 0.30000000000000004,
+    3.0, 0.25, 7.0, 123456789012.0, 0.30000000000000004, 0.49999999999999994, 3.5, 2147483647.0, 0.2,
 ];
 
 const STRS: [&str; 30] = [
